@@ -39,7 +39,7 @@ theorem pubL_cons_inv {tbl e es seg} (h : pubL tbl (e :: es) = some seg) :
 
 theorem pubE_ite_inv {tbl c a b seg} (h : pubE tbl (.ite c a b) = some seg) :
     ∃ sc sa sb, pubE tbl c = some sc ∧ pubE tbl a = some sa ∧ pubE tbl b = some sb ∧
-      seg = sc ++ (if sizeCells sa < sizeCells sb then sb else sa) := by
+      seg = sc ++ (sa ++ sb) := by
   rw [pubE] at h
   cases hc : pubE tbl c <;> cases ha : pubE tbl a <;> cases hb : pubE tbl b <;> simp_all
 
@@ -109,7 +109,7 @@ theorem pubE_visits (P : Prog) (tbl : Table) (ok : String → Bool) (ht : TableV
     have eb := some_nil_of_match eb
     rw [h1] at ea; rw [h2] at eb
     cases ea; cases eb
-    simp only [Nat.lt_irrefl, if_false, List.append_nil]
+    simp only [List.append_nil]
     exact .ite (pubE_visits P tbl ok ht c sc oc hc) (pubE_visits P tbl ok ht a [] oa h1)
       (pubE_visits P tbl ok ht b [] ob h2)
   | .tup es, seg, ha, h => by
